@@ -233,6 +233,11 @@ class TDS(BaseRoutine):
 
         self.initialized = True
 
+        # record the rotor angles monitored by the stability criterion (generators in the
+        # largest island); later connectivity checks after switching events update them
+        if self.config.criteria:
+            system.connectivity(info=False)
+
         # test if residuals are close enough to zero
         if self.config.test_init:
             self.test_ok = self.test_init()
